@@ -350,6 +350,8 @@ def base_programs(tier):
     shapes = []
     for (case, _b) in c01.gen_shapes("quick"):
         _, unit, spec, procs = case
+        if "fn-typed-charkind" in procs:
+            continue  # its FUNCTION statement is wider than 72 columns: not a fixed-form line as it stands
         if len(spec) <= 1 and len(procs) <= 1:
             shapes.append(case)
     # plus one statement-rich program (calls in executable part)
